@@ -69,7 +69,11 @@ static char SHARED3[96];
 static void h13_prep(void) { strcpy(SHARED3, "<ann.b@\xd0\xb6.wikipedia.org> [IPv6:::1.2.3.4], next"); add_region(SHARED3, sizeof SHARED3); }
 static void h13_body(int t) {
     const char *s = SHARED3; int ir = 0; (void)t;
+#ifdef HAVE_IDNKIT
+    int a = is_6531_local(s + 1, s + 6), b = 0 /* the idnkit build's is_utf8_domain takes a resolver context */, c = is_ascii_domain(s + 10, s + 23), d = is_special_domain(s + 10, s + 23);
+#else
     int a = is_6531_local(s + 1, s + 6), b = is_utf8_domain(&ir, s + 7, s + 23, false), c = is_ascii_domain(s + 10, s + 23), d = is_special_domain(s + 10, s + 23);
+#endif
     int e = 0 /* no TLD table walk here: it would square to 10^7 states */, f = is_ipv6(s + 31, s + 41), g = is_ipv4(s + 34, s + 41), h = is_822_local(s + 1, s + 6);
     logf_(t, "[%d %d/%d %d %d %d %d %d %d]", a, b, ir, c, d, e, f, g, h);
 }
